@@ -91,6 +91,8 @@ impl Marker {
                 MarkEvent::NodeStart { kind, .. } => *kind = LuaSyntaxKind::None,
                 _ => unreachable!(),
             }
+            // the erased node will never get a NodeEnd: release its mark level
+            p.decr_mark_level();
             return CompleteMarker {
                 start: 0,
                 kind: LuaSyntaxKind::None,
@@ -114,6 +116,8 @@ impl Marker {
             }
             _ => unreachable!(),
         }
+        // the erased node will never get a NodeEnd: release its mark level
+        p.decr_mark_level();
 
         CompleteMarker {
             start: self.position,
